@@ -385,3 +385,69 @@ func forwardFieldLoad(v ssa.Value) ssa.Value {
 	}
 	return v
 }
+
+// sitesRunning: the calls in fn that run the named in-package function - a
+// direct call of it, or a call of a helper every successful return of which
+// is dominated by such a call (to the given depth).
+func (c *Ctx) sitesRunning(fn *ssa.Function, callee string, depth int) []*ssa.Call {
+	var out []*ssa.Call
+	for _, b := range fn.Blocks {
+		for _, ins := range b.Instrs {
+			call, ok := ins.(*ssa.Call)
+			if !ok {
+				continue
+			}
+			sc := call.Call.StaticCallee()
+			if sc == nil || !c.inRoot(sc) {
+				continue
+			}
+			if fnName(sc) == callee {
+				out = append(out, call)
+				continue
+			}
+			if depth <= 0 || sc.Blocks == nil || sc == fn {
+				continue
+			}
+			inner := c.sitesRunning(sc, callee, depth-1)
+			if len(inner) == 0 {
+				continue
+			}
+			all := true
+			for _, rb := range maySucceedReturns(sc) {
+				dom := false
+				for _, ic := range inner {
+					if ic.Block() == rb || ic.Block().Dominates(rb) {
+						dom = true
+					}
+				}
+				if !dom {
+					all = false
+				}
+			}
+			if all && len(maySucceedReturns(sc)) > 0 {
+				out = append(out, call)
+			}
+		}
+	}
+	return out
+}
+
+// maySucceedReturns: the returning blocks of fn whose error result (if any)
+// is not known to be non-nil there.
+func maySucceedReturns(fn *ssa.Function) []*ssa.BasicBlock {
+	var out []*ssa.BasicBlock
+	for _, b := range fn.Blocks {
+		ret, ok := b.Instrs[len(b.Instrs)-1].(*ssa.Return)
+		if !ok || b == fn.Recover {
+			continue
+		}
+		if n := len(ret.Results); n > 0 && isErrorType(ret.Results[n-1].Type()) {
+			ev := resolveLoad(ret.Results[n-1])
+			if !isNilConst(ev) && (knownNonNilAt(ev, b) || nonNilErrorValue(ev)) {
+				continue
+			}
+		}
+		out = append(out, b)
+	}
+	return out
+}
